@@ -136,8 +136,10 @@ def apply_explicit_link(molecule, link):
                                                     interaction.parameters,
                                                     meta=interaction.meta)
                 atoms = interaction.atoms
-                new_edges = list(zip(atoms[:-1], atoms[1:]))
-                molecule.add_edges_from(new_edges)
+                # only the sections that describe connectivity make bonds
+                if inter_type in ('bonds', 'angles', 'dihedrals', 'cmap', 'constraints'):
+                    new_edges = list(zip(atoms[:-1], atoms[1:]))
+                    molecule.add_edges_from(new_edges)
             else:
                 raise IOError("Atoms of link interaction {} are not "
                               "part of the molecule.".format(interaction))
